@@ -310,6 +310,11 @@ fn judge<T: PartialEq + Debug>(r: &mut Report, case: &Case, flavour: &str, want:
     let input = format!("status={},ct={:?},{}{}", case.status, case.ct, if script::has_err(case.script) { "stream-error," } else { "" }, if chunks >= 3 { "chunks=3+".to_string() } else { format!("chunks={}", chunks) });
     let sig = |k: &str| format!("C18|{}|{}|{}|{}", case.func, flavour, k, input);
     let desc = format!("{} [{}] on status {} Content-Type {:?} body {}", case.func, case.class, case.status, case.ct, script::text(case.script));
+    // whatever an un-fused body yields after its end is not part of the response
+    if script::take_after_end() > 0 && got.is_ok() {
+        r.violation(sig("body-advanced-after-its-end"), format!("{}: the body was asked for more after it had reported its end", desc), cj);
+        return None;
+    }
     match (want, got) {
         (_, Err(p)) => {
             r.violation(sig("panic"), format!("{} panicked: {}", desc, p), cj);
